@@ -393,3 +393,20 @@ Fixpoint rs_run (mode : rs_sub) (cfg : rs_cfg) (st : rs_state) (ss : list rs_ste
       let '(st'', os) := rs_run mode cfg st' t in
       (st'', match o with Some x => x :: os | None => os end)
   end.
+
+(** a numeric digest of a reply (used by the check to compare extracted-model results with vm_compute) *)
+Definition rs_fp (o : rs_out) : list N :=
+  match o with
+  | RPanic => [99]
+  | ROk r =>
+      match r with
+      | RpErr e => [0; match e with EInvalidArg => 0 | EInvalidEventId => 1 | EWrongVer => 2 | EDbFailed => 3 | EClusterDown => 4 end]
+      | RpAppend _ _ pid seq ver _ => [1; pid; seq; ver]
+      | RpMAppend _ pid first last infos => 2 :: pid :: first :: last :: map rf_ver infos
+      | RpScan more evs => 3 :: (if more then 1 else 0) :: flat_map (fun e => [e_seq e; e_ver e]) evs
+      | RpNum None | RpEvent None => [4]
+      | RpEvent (Some e) => [5; e_seq e; e_ver e]
+      | RpNum (Some n) => [6; n]
+      | RpPong => [7]
+      end
+  end.
